@@ -19,12 +19,12 @@ import (
 // VerifC05_e2_act: errors sharing a status code and a type but not a mapping;
 // status codes set with Code() inside the response function.
 func VerifC05_e2_act() {
-	msg := nondetStringUpTo("msg", 2)
+	msg := nondetStringUpTo("msg", deep(2))
 	verifAssume(visible(msg))
 	code := nondetInt("code")
 	var detail *string
 	if nondetBool("detail-set") {
-		d := nondetStringUpTo("detail", 1)
+		d := nondetStringUpTo("detail", deep(1))
 		verifAssume(visible(d))
 		detail = &d
 	}
